@@ -399,15 +399,27 @@ Definition spec_cmp (op : cmpop) (a b : Z) : bool :=
      Float64 ~ Decimal_k(p,s)                       the decimal is cast to Float64 *)
 Definition maxprec (kd : dkind) : Z := match kd with D64 => 18 | D128 => 38 end.
 
+(* Three places of this path exist in two variants; vlib/tables_numfn.py reads from the source which one it has:
+     bind_i8   true:  decimal_bind computes the digit counts in native i8 arithmetic, as quoted above (panics / wraps for
+                      precision - scale > 127);  false: in i16, `i16::clamp(int_digits + scale, 1, MAX_PRECISION)`
+     u64_prec  DecimalTypeMeta::new_for_datatype_id(UInt64).precision: 19 (one digit short) or 20
+     wide128   false: the implicit casts to Decimal128 all score 140 and UInt64 -> Decimal64 is implicit (the table above);
+               true: Int64 / UInt64 / Decimal64 -> Decimal128 score 183 (> Float64 181) and UInt64 -> Decimal64 is explicit:
+                     Int64 / UInt64 ~ Decimal64 are compared as Decimal128 *)
+Record cparams := { bind_i8 : bool; u64_prec : Z; wide128 : bool }.
+
 (* the common (precision, scale) *)
-Definition dec_bind_meta (m : mode) (kd : dkind) (p1 s1 p2 s2 : Z) : outcome (Z * Z) :=
+Definition dec_bind_meta (P : cparams) (m : mode) (kd : dkind) (p1 s1 p2 s2 : Z) : outcome (Z * Z) :=
   if (p1 =? p2) && (s1 =? s2) then Ok (p1, s1) else
   let max_scale := Z.max s1 s2 in
-  bind_out (arith_result Native m Signed 8 (p1 - s1)) (fun li =>
-  bind_out (arith_result Native m Signed 8 (p2 - s2)) (fun ri =>
-  bind_out (arith_result Native m Signed 8 (Z.max li ri + max_scale)) (fun sum =>
-  let np := sum mod 2 ^ 8 in
-  Ok (if maxprec kd <? np then maxprec kd else np, max_scale)))).
+  if bind_i8 P then
+    bind_out (arith_result Native m Signed 8 (p1 - s1)) (fun li =>
+    bind_out (arith_result Native m Signed 8 (p2 - s2)) (fun ri =>
+    bind_out (arith_result Native m Signed 8 (Z.max li ri + max_scale)) (fun sum =>
+    let np := sum mod 2 ^ 8 in
+    Ok (if maxprec kd <? np then maxprec kd else np, max_scale))))
+  else
+    Ok (Z.max 1 (Z.min (Z.max (p1 - s1) (p2 - s2) + max_scale) (maxprec kd)), max_scale).
 
 (* expr::cast of one side to decimal(np, ns) when its meta differs; None = NULL *)
 Definition cast_side (kd : dkind) (p s np ns : Z) (v : option Z) : outcome (option Z) :=
@@ -420,9 +432,9 @@ Definition cast_side (kd : dkind) (p s np ns : Z) (v : option Z) : outcome (opti
   end)).
 
 (* Ok None = SQL NULL *)
-Definition dec_cmp_core (m : mode) (kd : dkind) (p1 s1 : Z) (v1 : option Z) (p2 s2 : Z) (v2 : option Z)
+Definition dec_cmp_core (P : cparams) (m : mode) (kd : dkind) (p1 s1 : Z) (v1 : option Z) (p2 s2 : Z) (v2 : option Z)
   : outcome (option comparison) :=
-  bind_out (dec_bind_meta m kd p1 s1 p2 s2) (fun ms =>
+  bind_out (dec_bind_meta P m kd p1 s1 p2 s2) (fun ms =>
   let '(np, ns) := ms in
   bind_out (cast_side kd p1 s1 np ns v1) (fun a =>
   bind_out (cast_side kd p2 s2 np ns v2) (fun b =>
@@ -452,26 +464,29 @@ Definition int_f64 (v : option Z) : option (option Z) :=
 Definition dec_f64 (v : option Z) (s : Z) : option (option Z) :=
   match v with None => Some None | Some x => option_map Some (dec_to_f64 x s) end.
 
-(* IntToDecimal to decimal(int_meta_prec w, 0): the value itself, validated against the precision *)
-Definition int_as_dec (w : Z) (v : option Z) : outcome (option Z) :=
+(* IntToDecimal to decimal(precision of the integer type, 0): the value itself, validated against the precision *)
+Definition int_prec (P : cparams) (sg : sgn) (w : Z) : Z :=
+  match sg with Unsigned => if w =? 64 then u64_prec P else int_meta_prec w | Signed => int_meta_prec w end.
+Definition int_as_dec (P : cparams) (sg : sgn) (w : Z) (v : option Z) : outcome (option Z) :=
   match v with
   | None => Ok None
-  | Some x => if vprec x (int_meta_prec w) then Ok (Some x) else Err
+  | Some x => if vprec x (int_prec P sg w) then Ok (Some x) else Err
   end.
 
 Definition kd_max (a b : dkind) : dkind := match a, b with D64, D64 => D64 | _, _ => D128 end.
 
-(* left ~ right as the binder resolves it; the second component tells whether the operands were swapped back *)
-Definition dec_vs (m : mode) (kd : dkind) (p s : Z) (v : option Z) (r : cop) (flip : bool) : outcome (option comparison) :=
+(* decimal ~ r as the binder resolves it; flip = the decimal is the right operand *)
+Definition dec_vs (P : cparams) (m : mode) (kd : dkind) (p s : Z) (v : option Z) (r : cop) (flip : bool) : outcome (option comparison) :=
   let core p1 s1 v1 k p2 s2 v2 :=
-    if flip then dec_cmp_core m k p2 s2 v2 p1 s1 v1 else dec_cmp_core m k p1 s1 v1 p2 s2 v2 in
+    if flip then dec_cmp_core P m k p2 s2 v2 p1 s1 v1 else dec_cmp_core P m k p1 s1 v1 p2 s2 v2 in
   let fl (a b : option (option Z)) := if flip then f64_cmp b a else f64_cmp a b in
   match r with
   | OpDec kd2 p2 s2 v2 => core p s v (kd_max kd kd2) p2 s2 v2
   | OpInt sg w x =>
-    if w <=? 32 then bind_out (int_as_dec w x) (fun y => core p s v kd (int_meta_prec w) 0 y)
+    if w <=? 32 then bind_out (int_as_dec P sg w x) (fun y => core p s v kd (int_prec P sg w) 0 y)
+    else if wide128 P then bind_out (int_as_dec P sg w x) (fun y => core p s v D128 (int_prec P sg w) 0 y)
     else match kd with
-         | D128 => bind_out (int_as_dec w x) (fun y => core p s v D128 (int_meta_prec w) 0 y)
+         | D128 => bind_out (int_as_dec P sg w x) (fun y => core p s v D128 (int_prec P sg w) 0 y)
          | D64 => match sg with
                   | Signed => fl (dec_f64 v s) (int_f64 x)
                   | Unsigned => Err
@@ -480,10 +495,10 @@ Definition dec_vs (m : mode) (kd : dkind) (p s : Z) (v : option Z) (r : cop) (fl
   | OpF64 b => fl (dec_f64 v s) (match b with None => Some None | Some x => Some (Some x) end)
   end.
 
-Definition impl_cmp_mixed (m : mode) (l r : cop) : outcome (option comparison) :=
+Definition impl_cmp_mixed (P : cparams) (m : mode) (l r : cop) : outcome (option comparison) :=
   match l, r with
-  | OpDec kd p s v, _ => dec_vs m kd p s v r false
-  | _, OpDec kd p s v => dec_vs m kd p s v l true
+  | OpDec kd p s v, _ => dec_vs P m kd p s v r false
+  | _, OpDec kd p s v => dec_vs P m kd p s v l true
   | _, _ => Err                                   (* no decimal operand: not this section's subject *)
   end.
 
